@@ -1242,6 +1242,28 @@ def gen_c17(rng, tier):
         c = Case("c17-part%d" % k, tags=dict(kind="part4" if four else "part2", width=wd, shift=shift, n=n))
         c.add("FN %s %d %d %s" % ("part4" if four else "part2", wd, shift, " ".join(map(str, vals))))
         out.append(c)
+    # the partitions by the digits of a CODE (used level by level by the Huffman-shaped trees): symbols whose code ended
+    # above this level keep their relative order after the groups of the others
+    for k in range(sizes(tier, 80, 600)):
+        wd = rng.choice([8, 16, 32, 64, 65, 128])
+        four = rng.random() < 0.5
+        frag = 2 if four else 1
+        nsym = rng.choice([1, 2, 5, 17, 40])
+        codes = []
+        for _ in range(nsym):
+            ln = frag * rng.randrange(0, 32 // frag + 1)          # 0 = symbol without a code (never in the sequence)
+            codes.append((rng.getrandbits(ln) if ln else 0, ln))
+        usable = [i for i, (_, ln) in enumerate(codes) if ln > 0] or [0]
+        if codes[usable[0]][1] == 0:
+            codes[0] = (1, frag)
+        shift = frag * rng.randrange(1, 32 // frag + 1)
+        n = rng.choice([0, 1, 2, 9, 60, 300])
+        vals = [rng.choice(usable) for _ in range(n)]
+        c2 = Case("c17-partc%d" % k, tags=dict(kind="part4c" if four else "part2c", width=wd, shift=shift, n=n))
+        c2.add("FN %s %d %d %d %s %s" % ("part4c" if four else "part2c", wd, shift, nsym,
+                                        " ".join("%d %d" % cl for cl in codes), " ".join(map(str, vals))))
+        c2.model = False
+        out.append(c2)
     c = Case("c17-remap", tags=dict(kind="text_remap"))
     for _ in range(sizes(tier, 200, 2000)):
         n = rng.choice([0, 1, 2, 10, 300])
@@ -1603,6 +1625,8 @@ def gen_c04(rng, tier):
             for s in [0, 1, 2, 3, 4, 5, 17, 255]:
                 c.add("Q occs %d" % s)
                 c.add("Q occssmaller %d" % s)
+            for a in args:
+                c.add("Q prefetch %d" % a)
             c.add("Q len"); c.add("Q isempty"); c.add("ITER iter nnnn"); c.add("ITER iter nKhnh"); c.add("ITER into jhkhKhnh")
         elif fam == "qv":
             for a in args:
@@ -1629,6 +1653,10 @@ def gen_c04(rng, tier):
                 c.add("Q getword %d" % a)       # documented panic when out of range
                 for ln in [0, 1, 64, 65, MAXU]:
                     c.add("Q getbits %d %d" % (a, ln))
+            if fam == "bv":
+                c.add("Q nlines")
+                for a in args:
+                    c.add("Q prefetch %d" % a)
             for l in ["Q len", "Q isempty", "Q countones", "Q countzeros", "ITER iter nnll", "ITER into nnllnl",
                       "ITER iter nKhlnhl", "ITER into jhlkhlKhlnl", "ITER ones nKhnh", "ITER zeros jhkhn"]:
                 c.add(l)
